@@ -216,6 +216,15 @@ Definition is_iteration_contexts (n : ast) := match n with AIterationContexts l 
 Definition is_named_params (n : ast) := match n with ANamedParams l => Some l | _ => None end.
 Definition is_positional_params (n : ast) := match n with APositionalParams l => Some l | _ => None end.
 Definition is_quantified_contexts (n : ast) := match n with AQuantifiedContexts l => Some l | _ => None end.
+Definition is_formal_params (n : ast) := match n with AFormalParams l => Some l | _ => None end.
+Definition is_qualified_name (n : ast) := match n with AQualifiedName l => Some l | _ => None end.
+
+(* if let Some(AstNode::K(items)) = pop() { push(f(items)) }: the popped node is dropped when it is not a K *)
+Definition pop_if (is_k : ast -> option (list ast)) (f : list ast -> ast) (ns : list ast) : ares :=
+  match ns with
+  | [] => ROk []
+  | n :: st => match is_k n with Some items => ROk (f items :: st) | None => ROk st end
+  end.
 
 (* `len` is yy_len = YY_R2[rule] (the action runs BEFORE the right-hand side is popped from the state and value stacks);
    calls into the lexer (set_between, set_till_in, set_type_name, set_unary_tests, push_to_scope, pop_from_scope,
@@ -293,9 +302,7 @@ Definition apply_act (a : act) (len : nat) (vs : list tval) (ns : list ast) : ar
     (* rhs = pop()?; if let Some(FormalParameters(mut items)) = pop() { items.push(rhs); push(FormalParameters(items)) } *)
     match ns with
     | [] => RErrPop
-    | rhs :: AFormalParams items :: st => ROk (AFormalParams (items ++ [rhs]) :: st)
-    | rhs :: _ :: st => ROk st
-    | [rhs] => ROk []
+    | rhs :: st => pop_if is_formal_params (fun items => AFormalParams (items ++ [rhs])) st
     end
   | Act_function_body =>
     (* if let Some(node) = pop() { push(FunctionBody(node, false)) } *)
@@ -343,11 +350,7 @@ Definition apply_act (a : act) (len : nat) (vs : list tval) (ns : list ast) : ar
     match vidx vs 1 with Some (VString s) => ROk (AContextEntryKey s :: ns) | _ => ROk ns end
   | Act_list =>
     (* if let Some(CommaList(items)) = pop() { push(List(items)) } *)
-    match ns with
-    | ACommaList items :: st => ROk (AList items :: st)
-    | _ :: st => ROk st
-    | [] => ROk []
-    end
+    pop_if is_comma_list AList ns
   | Act_list_empty => ROk (ACommaList [] :: ns)
   | Act_list_tail => tail_action is_comma_list ACommaList ns
   | Act_list_type => pop1 AListType ns
@@ -397,11 +400,7 @@ Definition apply_act (a : act) (len : nat) (vs : list tval) (ns : list ast) : ar
     match vidx vs 3 with
     | None => RPanic
     | Some (VName n) =>
-      match ns with
-      | AQualifiedName parts :: st => ROk (AQualifiedName (AQualifiedNameSegment n :: parts) :: st)
-      | _ :: st => ROk st
-      | [] => ROk []
-      end
+      pop_if is_qualified_name (fun parts => AQualifiedName (AQualifiedNameSegment n :: parts)) ns
     | Some _ => ROk ns
     end
   | Act_quantified_expression => pop2 AQuantifiedContext ns
@@ -422,11 +421,7 @@ Definition apply_act (a : act) (len : nat) (vs : list tval) (ns : list ast) : ar
   | Act_unary_tests_irrelevant => ROk (AIrrelevant :: ns)
   | Act_unary_tests_negated =>
     (* if let Some(ExpressionList(items)) = pop() { push(NegatedList(items)) } *)
-    match ns with
-    | AExpressionList items :: st => ROk (ANegatedList items :: st)
-    | _ :: st => ROk st
-    | [] => ROk []
-    end
+    pop_if is_expression_list ANegatedList ns
   end.
 
 (* ------------------------------------------------------------------ lalr.rs `reduce`: rule number -> action
